@@ -113,6 +113,21 @@ pub fn samples(_seed: u64) -> Vec<Sample> {
         o.push((2 + depth, dict(vec![("Type", name("Page")), ("Parent", rf(1 + depth))])));
         v.push(Sample { name: "deep-page-tree-24".into(), bytes: crate::mkpdf::simple_doc(&o, 1, vec![]), password: vec![] });
     }
+    // objects whose typed load fails (or not) because of a reference to a missing object one level below them: the answer to a
+    // load as a tolerant type must not depend on a failed load as a strict type before it
+    {
+        use crate::mkpdf::{arr, dict, name, rf, Obj};
+        let mut objs = crate::mkpdf::skeleton(1);
+        objs.push((4, dict(vec![("Type", name("Font")), ("Subtype", rf(9)), ("BaseFont", name("Helvetica"))])));          // required entry -> free object
+        objs.push((5, rf(9)));                                                                                              // the object is itself a reference to a free object
+        objs.push((6, dict(vec![("Type", name("Pages")), ("Kids", arr(vec![rf(9)])), ("Count", rf(9))])));
+        objs.push((7, dict(vec![("Type", name("XObject")), ("Subtype", name("Image")), ("Width", rf(9)), ("Height", Obj::Int(1))])));
+        objs.push((8, dict(vec![("Type", name("Font")), ("Subtype", name("Type0")), ("BaseFont", name("X")), ("Encoding", name("Identity-H")), ("DescendantFonts", arr(vec![rf(9)]))])));
+        objs.push((10, dict(vec![("Font", dict(vec![("F1", rf(4)), ("F2", rf(9))])), ("XObject", dict(vec![("I", rf(7))]))])));
+        objs[2].1.set("Resources", rf(10));
+        // object 9 is free (simple_doc fills the gap 9 with a free entry)
+        v.push(Sample { name: "missing-object-one-level-below".into(), bytes: crate::mkpdf::simple_doc(&objs, 1, vec![]), password: vec![] });
+    }
     // images whose filter chain splits into "normal" and "image" filters
     {
         use crate::mkpdf::{arr, name, rf, stream, Obj};
